@@ -233,6 +233,8 @@ def mutate(draw: t.Any, v: t.Any, names: t.Sequence[str], depth: int = 0) -> t.A
         # an instance of a *subclass* of the interchange type (user subclass, mixin enum member): whether it is accepted is not
         # documented, but whatever comes back must be exactly typed (int, not MyInt or an IntEnum member)
         from . import usertypes as U
+        if type(v) is str and draw(st.integers(0, 2)) == 2:
+            return U.LoudStr(v)      # its __str__ is not its text
         if type(v) in (int, float, str, bytes) and draw(st.booleans()):
             return {int: U.MyInt, float: U.MyFloat, str: U.MyStr, bytes: U.MyBytes}[type(v)](v)
         pool = {int: [U.IE.P, U.IE0.ZERO, U.IE0.ONE], float: [U.FE0.NIL, U.FE0.HALF], str: [U.SE.RED, U.SE0.EMPTY, U.SE0.A]}.get(type(v))
@@ -318,6 +320,8 @@ def conv_cases(draw, specs: st.SearchStrategy[t.Any]) -> t.Any:
     v = draw(nd.valid())
     if draw(st.booleans()):
         v = reshape_all(draw, v)
+    if mode == 'valid' and draw(st.integers(0, 5)) == 5:
+        return [spec, _subclassify(draw, v), 'subclassed']
     if mode == 'mutated':
         names = nd.names()
         v = mutate(draw, v, names)
@@ -325,6 +329,50 @@ def conv_cases(draw, specs: st.SearchStrategy[t.Any]) -> t.Any:
             v = mutate(draw, v, names)
         return [spec, v, 'mutated']
     return [spec, v, 'valid']
+
+
+def _subclassify(draw: t.Any, v: t.Any, depth: int = 0) -> t.Any:
+    """Scalars (values, not mapping keys) become instances of subclasses of their type: user subclasses, a str subclass whose
+    __str__ is not its text, mixin enum members.  Whether such an instance is accepted is unspecified; what it converts to is not."""
+    from . import usertypes as U
+    if depth > 5:
+        return v
+    if tg.is_seq(v) and not isinstance(v, range):
+        return _rebuild_seq(v, [_subclassify(draw, x, depth + 1) for x in v])
+    if tg.is_map(v):
+        return _rebuild_map(v, [(k, _subclassify(draw, x, depth + 1)) for (k, x) in v.items()])
+    if type(v) in (int, float, str, bytes) and draw(st.booleans()):
+        kind = draw(st.integers(0, 3))
+        if type(v) is str and kind == 0:
+            return U.LoudStr(v)
+        if kind == 1:
+            pool = {int: [U.IE.P, U.IE0.ZERO, U.IE0.ONE], float: [U.FE0.NIL, U.FE0.HALF], str: [U.SE.RED, U.SE0.EMPTY, U.SE0.A]}.get(type(v))
+            if pool:
+                return draw(st.sampled_from(pool))
+        return {int: U.MyInt, float: U.MyFloat, str: U.MyStr, bytes: U.MyBytes}[type(v)](v)
+    return v
+
+
+def _insertify(draw: t.Any, v: t.Any, depth: int = 0) -> t.Any:
+    """Every mapping becomes a defaultdict (its lookup *inserts* absent keys); about half of them lose one entry."""
+    if depth > 5:
+        return v
+    if tg.is_seq(v) and not isinstance(v, range):
+        return _rebuild_seq(v, [_insertify(draw, x, depth + 1) for x in v])
+    if tg.is_map(v):
+        pairs = [(k, _insertify(draw, x, depth + 1)) for (k, x) in v.items()]
+        if pairs and draw(st.booleans()):
+            pairs.pop(draw(st.integers(0, len(pairs) - 1)))
+        return collections.defaultdict(draw(st.sampled_from([int, list, str, dict, float])), pairs)
+    return v
+
+
+@st.composite
+def inserting_cases(draw, specs: st.SearchStrategy[t.Any]) -> t.Any:
+    """-> [type spec, value, 'inserting']: valid data in which the mappings are defaultdicts, some with an entry taken away."""
+    spec = draw(specs)
+    v = _insertify(draw, draw(tg.node(spec).valid()))
+    return [spec, v, 'inserting']
 
 
 # Hypothesis favours the first alternatives of a choice; order and multiplicity set the mix (~50/40/10)
